@@ -122,6 +122,13 @@ def custom_templates(rng, mn, structure):
         streets=[_st(0, [1] * k, 0, 0, 'LOW_CARD', mn, cap)
                  for _ in range(5 if k == 1 else 3)],
         maxn=8 if k == 1 else 6, stud=True)
+    t['studdraw2'] = dict(  # exposed cards can be discarded and redrawn
+        deck='STANDARD', hand_types=['StandardHighHand'],
+        streets=[_st(0, [0, 1, 1], 0, 0, 'LOW_CARD', mn, cap),
+                 _st(1, [], 0, 1, 'HIGH_HAND', mn, cap),
+                 _st(1, [1], 0, 0, 'HIGH_HAND', 2 * mn, cap),
+                 _st(0, [], 0, 1, 'HIGH_HAND', 2 * mn, cap)],
+        maxn=6, stud=True)
     t['greek'] = dict(
         deck='STANDARD', hand_types=['GreekHoldemHand'],
         streets=[_st(0, [0, 0], 0, 0, P, mn, cap),
